@@ -530,6 +530,10 @@ func (env *SpecEnv) binary(e *Expr) *Value {
 			t = Eq(a.Ref, x.null())
 		case a.K == KFunc || b.K == KFunc:
 			t = Eq(leafTerms(a)[0], leafTerms(b)[0])
+		case a.K == KScalar && b.K == KScalar && a.Term.Sort.Kind == SReal && b.Term.Sort.Kind == SInt && b.Term.Op == "int":
+			t = Eq(a.Term, &Term{Op: "int", Int: b.Term.Int, Sort: RealSort})
+		case a.K == KScalar && b.K == KScalar && b.Term.Sort.Kind == SReal && a.Term.Sort.Kind == SInt && a.Term.Op == "int":
+			t = Eq(&Term{Op: "int", Int: a.Term.Int, Sort: RealSort}, b.Term)
 		default:
 			t = eqValue(a, b)
 		}
@@ -1293,6 +1297,29 @@ func (env *SpecEnv) methodCall(fn *Expr, args []*Expr) *Value {
 	rv := recv
 	if _, wantPtr := under(recvT).(*types.Pointer); !wantPtr && recv.K == KPtr {
 		rv = env.deref(recv)
+	}
+	// a method with an assumed (extern) contract denotes the same thing in specifications as in code
+	if ec, ok := x.db.Externs[sfn.String()]; ok {
+		st := env.cur.clone()
+		st.guard = True
+		saveObl := len(x.obls)
+		var resT types.Type = sfn.Signature.Results()
+		if sfn.Signature.Results().Len() == 1 {
+			resT = sfn.Signature.Results().At(0).Type()
+		}
+		fr := env.fr
+		if fr == nil {
+			fr = x.rootFrame
+		}
+		r := x.applyContract(fr, st, ec, sfn, append([]*Value{rv}, avs...), resT, token.NoPos, sfn.String())
+		x.obls = x.obls[:saveObl]
+		if r == nil {
+			return &Value{K: KTuple}
+		}
+		return r
+	}
+	if !x.inRepo(sfn) {
+		specFail("method %s of a dependency has no assumed contract (bodies outside the repository are never entered)", sfn.String())
 	}
 	st := env.cur.clone()
 	st.guard = True
